@@ -9,7 +9,7 @@ CHECKS = {
          "trusts the reference codec written from the protocol description and bytes/tokio-util", "DESIGN.md §3 C03"),
 }
 CHECKS["C04"] = ("exploration", "property-based testing with a reference wire parser (proptest): generated schemes x generated API call sequences on the real client session over a recording in-memory transport; erase-padding equality",
-         "Generated padding schemes (everything the scheme parser accepts, sizes 1..2^63-1) and call sequences (incl. answers to a peer's keep-alive requests), also over transports that accept only short writes or hold only a few hundred bytes in flight while a second writer (the answer to a keep-alive request) is active, or that keep everything until flush; after every call the recorded wire must parse under the reference codec and, with padding erased, equal the reference encoding of the submitted frames. Sampling.",
+         "Generated padding schemes (everything the scheme parser accepts, sizes 1..2^63-1) and call sequences (incl. answers to a peer's keep-alive requests), also over transports that accept only short writes or hold only a few hundred bytes in flight while a second writer (the answer to a keep-alive request) is active, or that keep everything until flush; after every call the recorded wire must parse under the reference codec and, with padding erased, equal the reference encoding of the submitted frames. Family after_error: one write or flush of the transport fails once and the transport recovers - anything the session writes afterwards must follow a complete frame and be a submitted frame. Sampling.",
          "trusts the reference codec/scheme reader, tokio's paused clock and current-thread scheduler, the harness pipe", "DESIGN.md §3 C04")
 CHECKS["C05"] = ("exploration", "property-based testing against a nondeterministic reference acceptor for packet shapes (proptest)",
          "Generated satisfiable schemes and single-writer call sequences (local writes and answers to the peer's keep-alive requests) with payload sizes around the range bounds; each packet's logged write lengths must be explained by the reference acceptor for its line; preamble padding and server-side no-padding checked in separate families. Sampling.",
@@ -25,10 +25,10 @@ _c("C02", "exploration", "model-based property testing (proptest): generated fra
    "Generated SYN/PSH/FIN/SYNACK histories over a small id pool (stray, stale, duplicate, reused ids) against a real session in either role (client role also with foreign frames still in flight while open_stream runs under forced pre-emptions; local sends on any instance judged at the scripted peer), plus 2-8 concurrent streams between two real sessions; every byte is keyed by the stream instance it belongs to. Sampling.",
    "trusts the reference codec and the instance model; frames still in flight when an id is opened are not counted as stray (they are let to be processed first)")
 _c("C06", "exploration", "property-based testing (proptest) of authenticate_client over a fragmenting reader with exhaustive small grids (256 bit flips, 32 prefixes, every truncation length) + end-to-end negatives against the real server on loopback + libFuzzer target auth_preamble",
-   "iff-predicate on acceptance, exact consumed-bytes count for every declared padding length (all 65536 in thorough), termination on EOF. End to end: a reference client over TLS sends a wrong / truncated / correct preamble (optionally followed by 6-65 s of silence, or cut in two with 3-25 s between the pieces, or preceded by bytes that are not the hash; also against servers configured with passwords that have blanks around them, presenting hashes of related passwords) and then a complete valid session; a target connection, a stream or any application byte back is allowed iff the hash was right.",
+   "iff-predicate on acceptance, exact consumed-bytes count for every declared padding length (all 65536 in thorough), termination on EOF. End to end: a reference client over TLS sends a wrong / truncated / correct preamble (optionally followed by 6-65 s of silence, or cut in two with 3-25 s between the pieces, or preceded by bytes that are not the hash, or sent to a server that has just turned away 20-700 other connections; also against servers configured with passwords that have blanks around them, presenting hashes of related passwords) and then a complete valid session; a target connection, a stream or any application byte back is allowed iff the hash was right.",
    "trusts sha2, the harness pipe and the reference client; kernel loopback for the end-to-end family")
 _c("C08", "exploration", "property-based testing (proptest): scripted reference peer sends data+FIN back-to-back to a real session; history invariants (EOF after data, reverse direction alive, state released)",
-   "Generated per-stream frame lists followed by FIN in one transport write with generated fragmentation, late/early readers with tiny buffers, reverse traffic before/after the FIN, siblings; both roles. Sampling. Server side with a reference client that sends FIN, also before the SYNACK (srv_fin: the target must see every byte and then end-of-stream, not a reset). End to end (Lab-S): who closes or half-closes first (application, target) with amounts in flight in both directions through SOCKS5 -> client -> server -> target; P2/P3 (all data before the end, reverse direction alive) are armed, P1 (EOF arrives) is the listed known finding.",
+   "Generated per-stream frame lists followed by FIN in one transport write with generated fragmentation, late/early readers with tiny buffers, reverse traffic before/after the FIN, siblings; both roles. Sampling. Server side with a reference client that sends FIN, also before the SYNACK (srv_fin: the target must see every byte and then end-of-stream, not a reset; also with 4-61 s of silence in the middle of the upload or of the reply). End to end (Lab-S): who closes or half-closes first (application, target) with amounts in flight in both directions through SOCKS5 -> client -> server -> target; P2/P3 (all data before the end, reverse direction alive) are armed, P1 (EOF arrives) is the listed known finding.",
    "trusts reference codec, H4 table sizes, paused clock")
 _c("C09", "fault_enumeration", "fault enumeration over byte offsets of a recorded fault-free run + property-based sampling of scenario x cause x position x schedule (proptest), virtual-time watchdog",
    "Each cause (peer EOF, three read errors, write error at byte k, flush error, Alert, liveness timeout, owner close, hanging shutdown) is injected at offsets enumerated from the fault-free recording of the same scenario, in both roles, with blocked readers, pending opens and queued writers; release invariants judged after one virtual hour.",
@@ -62,9 +62,9 @@ _c("C16", "exploration", "property-based testing (proptest) of the real SOCKS5 l
 _c("C13", "exploration", "property-based testing (proptest) of request histories through the real SOCKS5 front-end with a counting TCP forwarder in front of the real server; invariants over the connection counts",
    "Generated sequential/bursty request histories with pauses, requests to a closed port and network cuts of every / of one established session, pool settings varied (incl. 1 s / 2 s timers); the forwarder counts TLS connections opened and still open and the client's idle_count is compared with the pool model after every step. Lab-M family `pooled`: a real Client with in-memory pooled sessions, housekeeping concurrent with requests - a request must be served from the pool whenever a healthy session must survive. r2 (second non-overlapping request reuses) is armed; r3+ and the bound are listed known findings with witnesses (sessions are never returned to the pool).",
    "kernel loopback; forwarder accept count = sessions dialled; pool model: dial inserts, reuse removes, nothing returns (today's lifecycle)")
-_c("C15", "exploration", "property-based testing (proptest): end-to-end datagram sequences in lock-step through create_udp_proxy on loopback, and the server relay fed a reference UDP-over-TCP stream with generated fragmentation",
-   "Datagram sizes 1..65507 with keyed contents in both directions through the real client/server; IPv4 and IPv6 targets, stray datagrams from a third socket to the relay; server relay alone with cuts inside length prefixes and several packets per chunk; the real client's association against a reference server that echoes each datagram in fragments with 0-2600 ms between the frames; exactly-one/identical/ordered delivery and silence of a decoy socket.",
-   "kernel loopback UDP in lock-step (no socket buffer loss); reference UoT framing")
+_c("C15", "exploration", "property-based testing (proptest): end-to-end datagram sequences, in lock-step and in back-to-back bursts, through create_udp_proxy on loopback, and the server relay fed a reference UDP-over-TCP stream with generated fragmentation",
+   "Datagram sizes 1..65507 with keyed contents in both directions through the real client/server; IPv4 and IPv6 targets, stray datagrams from a third socket to the relay, bursts of 2-7 datagrams of different sizes queued on a relay socket at once (compared as multisets); server relay alone with cuts inside length prefixes and several packets per chunk; the real client's association against a reference server that echoes each datagram in fragments with 0-2600 ms between the frames; exactly-one/identical/ordered delivery and silence of a decoy socket.",
+   "kernel loopback UDP in lock-step or in bursts of at most 60000 bytes (no socket buffer loss); reference UoT framing")
 _c("C19", "exploration", "property-based testing (proptest) of process-level histories, each in a fresh child process, against a scripted reference server that observes the client's plaintext; reference scheme family with distinct fixed sizes",
    "1-4 sessions of one real Client per process, server scheme per connection (parsable with distinct sizes / the built-in scheme / unparsable), client schemes incl. stop=1, default used before or not; packet sizes, announced md5, preamble padding and push counts judged against the scheme that must be in force. Plus the real server session's push decision and exact pushed bytes in Lab-M (scheme texts ending in LF / CRLF / spaces), and a push that arrives while a write of the same session is parked in the transport (midwrite).",
    "one child process per history; the reference server's plaintext view; packets delimited by the child's known call pattern")
